@@ -122,4 +122,50 @@ theorem compact_start_rejects :
         ⟨[1, 2, 3, 4, 5, 6, 7, 8] ++ List.replicate 8 0, List.replicate 16 0, 0, 0, 0, 0⟩ prepCompactStart, c = 0) := by
   decide
 
+/-! ### arity 4: the booleanity check of the high direction cell is needed (seed C11-d)
+
+Toy arity-4 layout `D = 1`, `WIDTH_EXT = 4`, `RATE_EXT = 3`, `CAPACITY_EXT = 1` (four one-limb chunks), generic
+preprocessed rows of `4·4 + 2·3 + 4 = 26` columns. The coordinated forgery of `harness/src/c11p_chain.rs`
+(`forge_selector`, cell `mmcs_bit2`, `t = 2`): continuation row with `mmcs_bit = 0`, `mmcs_bit2 = 2`, helper 0, the
+digest 50 in chunk 0 AND chunk 2, accumulator `4·0 + 2·2 = 4`. -/
+
+def L4 : PosLayout := ⟨1, 4, 3, 1, 1⟩
+
+/-- Merkle continuation row, every slot chained (`merkle_chain_sel = 1`), bit lookups at witnesses 30 / 31 -/
+def prep4Mid : List Q := [0, 0, 0, 1,  0, 0, 0, 1,  0, 0, 0, 1,  0, 0, 0, 1,  0, 0,  0, 0,  0, 0,  30, 31, 0, 1]
+/-- chain boundary (padding) -/
+def prep4Pad : List Q := [0, 0, 0, 0,  0, 0, 0, 0,  0, 0, 0, 0,  0, 0, 0, 0,  0, 0,  0, 0,  0, 0,  0, 0, 1, 0]
+
+/-- chain start: digest 50 -/
+def q0 : PosRow Q := ⟨[3, 4, 5, 6], [50, 51, 52, 53], 0, 0, 0, 0⟩
+/-- the forged continuation row: `b0 = 0`, `b1 = 2`, helper `0 = 0·2`, digest in chunks 0 and 2, accumulator 4 -/
+def qF : PosRow Q := ⟨[50, 9, 50, 8], [60, 61, 62, 63], 0, 2, 0, 4⟩
+def pad4 : PosRow Q := ⟨[0, 0, 0, 0], [1, 2, 3, 4], 0, 0, 0, 0⟩
+
+/-- **Every constraint but `assert_bool(mmcs_bit2)` accepts the forged row.** (a) the window in which the forged row is
+the *next* row (placement, accumulator) is accepted outright; (b) in the window in which it is the *local* row exactly
+one constraint is non-zero: #1, the booleanity of the high direction cell; (c) with the booleanity asserted on the product
+helper instead (seed C11-d) that window is accepted too; (d) the row is no Merkle step: weights `(−1, 0, 2, 0)`, claimed
+position `b0 + 2·b1 = 4`, and the table sends `(31, 2)` as the high direction bit. -/
+theorem arity4_bit2_check_needed :
+    (∀ c ∈ poseidonCtlConstraints L4 (1 : Q) q0 qF prep4Mid, c = 0) ∧
+    (∀ c ∈ (poseidonCtlConstraints L4 (1 : Q) qF pad4 prep4Pad).eraseIdx 1, c = 0) ∧
+    (poseidonCtlConstraints L4 (1 : Q) qF pad4 prep4Pad)[1]? = some (boolCons qF.bit2) ∧ boolCons qF.bit2 ≠ 0 ∧
+    (∀ c ∈ (poseidonCtlConstraints L4 (1 : Q) qF pad4 prep4Pad).set 1 (boolCons qF.bitProd), c = 0) ∧
+    ((List.range 4).map (arity4Hot qF) = [-1, 0, 2, 0]) ∧ qF.bit + 2 * qF.bit2 = 4 ∧
+    (poseidonCtlInteractions L4 qF prep4Mid prep4Pad).getLast? = some ([31, 2], -1) := by
+  decide
+
+/-- the real constraint list does reject the forged row, and accepts the honest position-0 row with the same cells -/
+theorem arity4_bit2_forgery_rejected :
+    (¬ ∀ c ∈ poseidonCtlConstraints L4 (1 : Q) qF pad4 prep4Pad, c = 0) ∧
+    (∀ c ∈ poseidonCtlConstraints L4 (1 : Q) q0 { qF with bit2 := 0, idxSum := 0 } prep4Mid, c = 0) ∧
+    (∀ c ∈ poseidonCtlConstraints L4 (1 : Q) { qF with bit2 := 0, idxSum := 0 } pad4 prep4Pad, c = 0) := by
+  decide
+
+/-- instance of `C11P.arity4Hot_onehot_iff`: the forged row has no one-hot position -/
+theorem arity4_forged_not_onehot :
+    ¬ ∃ pos < 4, ∀ k < 4, arity4Hot qF k = if k = pos then 1 else 0 :=
+  arity4Hot_bit2_free_not_onehot (2 : Q) 4 [50, 9, 50, 8] [60, 61, 62, 63] (by decide) (by decide)
+
 end P3R.Witness.C11P
